@@ -1486,7 +1486,7 @@ impl Check for C18 {
     fn cases(&self, tier: Tier) -> u64 {
         match tier {
             Tier::Quick => 6_000,
-            Tier::Thorough => 400_000,
+            Tier::Thorough => 300_000,
         }
     }
     fn workers(&self, _tier: Tier) -> usize {
